@@ -18,11 +18,12 @@ import lib_ansi as L
 PROPERTY = "C19"
 
 # CODE VARIANT FLAGS — which variant of the code the model is compared with (fields of `Ansi.Cfg` in
-# lean/RichModel/Model/Ansi.lean).  1 = rich 9.10.0 as found, 0 = repaired (see /verif/pending_fixes/C19-*.diff).
+# lean/RichModel/Model/Ansi.lean).  1 = rich 9.10.0 as found, 0 = repaired = what /repo contains now
+# (fixes 8dc20cb, c4ae818 = the former /verif/pending_fixes/C19-*.diff).
 INT_RAISES = 0   # F10: AnsiDecoder.decode_line lets int()'s ValueError out ("\x1b[²m", > 4300 digits)
 FLUSH_RAW = 0    # F20: FileProxy.flush prints the pending text as a str (markup / emoji / highlight on, not decoded)
 FLAGS = "".join(str(int(bool(x))) for x in (INT_RAISES, FLUSH_RAW))
-# development aid only (trying a pending fix in a scratch worktree): VERIF_C19_FLAGS=00 overrides the constants above
+# development aid only (running against another checkout, VERIF_REPO=<worktree>): VERIF_C19_FLAGS=00 overrides the constants above
 FLAGS = os.environ.get("VERIF_C19_FLAGS") or FLAGS
 assert len(FLAGS) == 2 and set(FLAGS) <= {"0", "1"}
 
@@ -960,7 +961,8 @@ MANIFEST = {
     "flush with something pending), each once, in order, one decoder state carried along, nothing raised, the unterminated rest stays buffered; "
     "proxy_chunking_irrelevant (where writes are cut plays no role), proxy_writes_complete_lines, proxy_flush_empties, proxy_verbatim (every print is "
     "a decoded Text with markup / emoji / highlight off), decode_total (the repaired decoder never raises).  Witnesses old_decode_raises, "
-    "old_flush_prints_raw, old_write_loses_line show by evaluation that the code as found (F10, F20) violates them.  "
+    "old_flush_prints_raw, old_write_loses_line show by evaluation that rich 9.10.0 as found (F10, F20; before fixes 8dc20cb, c4ae818) violated them; "
+    "/repo contains the repaired variant.  "
     "Tie: ~150k (quick) / ~1.5M (thorough) generated cases compared model-vs-rich for _ansi_tokenize, re_csi removal, decode_line / decode "
     "(final decoder style included), Style.render / _render_buffer, and FileProxy histories (what the proxy asks console.print to print, per call), "
     "plus direct evaluation on rich's own output with oracles independent of the model: harness/term.py tokenizer + an ECMA-48 reading of SGR "
